@@ -1422,7 +1422,7 @@ func (st *Runtime) evaluateArgs(fnType reflect.Type, args CallArgs, pipedArg *re
 			return nil, fmt.Errorf("piped first argument for %s is not a valid value", fnType)
 		}
 		if !(*pipedArg).Type().AssignableTo(in) {
-			if !(*pipedArg).Type().ConvertibleTo(in) {
+			if !convertible(*pipedArg, in) {
 				return nil, fmt.Errorf("piped first argument for %s has type %s, which cannot be converted to %s", fnType, (*pipedArg).Type(), in)
 			}
 			*pipedArg = (*pipedArg).Convert(in)
@@ -1448,7 +1448,7 @@ func (st *Runtime) evaluateArgs(fnType reflect.Type, args CallArgs, pipedArg *re
 			return nil, fmt.Errorf("argument for position %d in %s is not a valid value", slot, fnType)
 		}
 		if !term.Type().AssignableTo(in) {
-			if !term.Type().ConvertibleTo(in) {
+			if !convertible(term, in) {
 				return nil, fmt.Errorf("argument for position %d in %s has type %s, which cannot be converted to %s", slot, fnType, term.Type(), in)
 			}
 			term = term.Convert(in)
@@ -1474,7 +1474,7 @@ func (st *Runtime) evaluateArgs(fnType reflect.Type, args CallArgs, pipedArg *re
 				return nil, fmt.Errorf("argument for position %d in %s is not a valid value", slot, fnType)
 			}
 			if !term.Type().AssignableTo(in) {
-				if !term.Type().ConvertibleTo(in) {
+				if !convertible(term, in) {
 					return nil, fmt.Errorf("argument for position %d in %s has type %s, which cannot be converted to %s", slot, fnType, term.Type(), in)
 				}
 				term = term.Convert(in)
@@ -1486,6 +1486,23 @@ func (st *Runtime) evaluateArgs(fnType reflect.Type, args CallArgs, pipedArg *re
 	}
 
 	return argValues, nil
+}
+
+// convertible reports whether v.Convert(t) will succeed: a slice converts to an array (or to a
+// pointer to one) only if it is long enough, which the types alone do not tell
+func convertible(v reflect.Value, t reflect.Type) bool {
+	if !v.Type().ConvertibleTo(t) {
+		return false
+	}
+	if v.Kind() == reflect.Slice {
+		switch {
+		case t.Kind() == reflect.Array:
+			return v.Len() >= t.Len()
+		case t.Kind() == reflect.Ptr && t.Elem().Kind() == reflect.Array:
+			return v.Len() >= t.Elem().Len()
+		}
+	}
+	return true
 }
 
 func isUint(kind reflect.Kind) bool {
